@@ -92,6 +92,16 @@ def configs(tier):
                                       put_faults=(), die=(-9,),
                                       die_idle=False),
                         depth=d, max_states=40000 if not T else 400000))
+    # terminate_job(pid) aimed at a worker that runs a part of a map / imap
+    # job (the call takes a pid; nothing ties it to apply_async)
+    for jobs in ([mp], [imu], [im]):
+        out.append(dict(name='multi/terminate-worker:' + jobs[0]['kind'],
+                        procs=2, jobs=jobs, pool=pool,
+                        alphabet=dict(A, discard=False, terminate_job=False,
+                                      terminate_worker=True, close=False,
+                                      put_faults=(), next=True),
+                        depth=min(d, 9),
+                        max_states=40000 if not T else 400000))
     imr0 = dict(kind='imap', fn='tenfold', items=[1, 2], iter_raise_at=0)
     imr1 = dict(kind='imap_unordered', fn='tenfold', items=[1, 2],
                 iter_raise_at=1)
